@@ -64,6 +64,18 @@ def _diagonal_form(uf):
     return d
 
 
+def _rules_differ(uf, dform, key, dk, cmode, O):
+    """(rules of the user's form, rules of the derived diagonal form) for the integral `key` when they differ, else None."""
+    try:
+        itype, sid = key[0], key[1]
+        data, ents, perms = dk(itype, sid)
+        r1 = O.FormOracle(uf, complex_mode=cmode, diagonal=True).tensor(itype, sid, data, ents, perms)[2]["rules"]
+        r2 = O.FormOracle(dform, complex_mode=cmode, diagonal=True).tensor(itype, sid, data, ents, perms)[2]["rules"]
+    except Exception:
+        return None
+    return (r1, r2) if sorted(map(str, r1)) != sorted(map(str, r2)) else None
+
+
 def run_case(case):
     from vf import corpus
     from vf import harness as H
@@ -243,6 +255,13 @@ def run_case(case):
                          f"options {o} on {key}: the diagonal kernel equals the diagonal of the full tensor only when w/c are packed by the coefficient/constant "
                          f"lists of the derived diagonal-block form ({len(dform.coefficients())} coefficients, {len(dform.constants())} constants) instead of the "
                          f"compiled user's form ({len(uf.coefficients())}, {len(uf.constants())}); with the user's lists the relative difference is {err:.3e}")
+                elif mode == "diagonal" and dform is not None and _rules_differ(uf, dform, key, dk, cmode, O):
+                    # the derived diagonal-block form lost a term that decided the ESTIMATED quadrature degree of the integral: the
+                    # diagonal kernel integrates with another rule than the full kernel (its values are checked against the oracle
+                    # of the derived form below)
+                    viol("diagonal-option-derived-form-changes-quadrature-rule",
+                         f"options {o} on {key}: the derived diagonal-block form gets quadrature {_rules_differ(uf, dform, key, dk, cmode, O)[1]} where the user's form gets "
+                         f"{_rules_differ(uf, dform, key, dk, cmode, O)[0]}: diagonal kernel and diagonal of the full tensor differ by {err:.3e} (quadrature error)")
                 else:
                     viol({"sumfact": "sum-factorization-changes-tensor", "diagonal": "diagonal-differs-from-full", "tol": "tolerance-changes-beyond-allowed"}.get(mode, "option-changes-tensor"),
                          f"options {o} vs {opt_sets[0]} on {key} ({kind} geometry): relative difference {err:.3e} > {bound:.1e} (measured table delta {dmax:.1e})")
@@ -251,7 +270,7 @@ def run_case(case):
         if comp is None:
             continue
         # (with dropped coefficients/constants the value check packs by the derived form: the packing defect is reported once, above)
-        uf_o = dform if (renumbered and o.get("part") == "diagonal") else uf
+        uf_o = dform if (dform is not None and o.get("part") == "diagonal") else uf
         obs, desc, orc = VC.run_form(uf_o, comp, comp.objs[0], rng, scalar=scalar, entity_mode="some", entity_limit=3, perm_mode="some",
                                      sum_factorization=bool(o.get("sum_factorization")), diagonal=o.get("part") == "diagonal", delta=d)
         for ob in obs:
@@ -310,6 +329,7 @@ def cases_for(tier, s):
             # a constant / a coefficient that occurs only in an off-diagonal block (packing relative to the user's form)
             R.append({"mode": "diagonal", "recipe": {"b": "diag_dropped", "cell": cell, "p": {"what": "constant"}}, "option_sets": DG})
             R.append({"mode": "diagonal", "recipe": {"b": "diag_dropped", "cell": cell, "p": {"what": "coefficient"}}, "option_sets": DG})
+            R.append({"mode": "diagonal", "recipe": {"b": "diag_dropped", "cell": cell, "p": {"what": "degree"}}, "option_sets": DG})
         R.append({"mode": "diagonal", "recipe": {"b": "dg_jump", "cell": cell}, "option_sets": DG})
     # ---- tolerances
     # order matters: a very loose setting is compiled BEFORE the tight ones and the defaults are compiled again at the end, all in one
